@@ -9,10 +9,10 @@ No bound on the number of operations, tasks, threads or on the schedule; amounts
 are arbitrary integers (units of 1/A step and 1/tps second).  `WF st` says ids are below
 `_task_index` — true of the empty `Progress` and kept by every operation (`run_WF`).
 
-Defect found (F21): `advance` reads the clock *before* taking the lock, so two threads can commit
+Defect found (F21) in rich 9.10.0 as found: `advance` read the clock *before* taking the lock, so two threads can commit
 samples in the opposite order of their timestamps; `speed` then divides by a negative span.
-`Cfg.clockOutside = true` is today's code (witnesses `old_…` below), `false` the repair, for which
-every schedule is a sequential history on the same clock (`fixed_schedules_are_sequential`).
+`Cfg.clockOutside = true` is that as-found code (witnesses `old_…` below), `false` the repair (fix b790bf0, what /repo
+contains now), for which every schedule is a sequential history on the same clock (`fixed_schedules_are_sequential`).
 -/
 namespace RichModel.C12
 open RichModel.Progress
@@ -223,7 +223,7 @@ theorem speed_nonneg_all_schedules (cfg : Cfg) (clock : Clock) (hfix : cfg.clock
     intro th hth; simp only [List.mem_map] at hth; obtain ⟨p, _, rfl⟩ := hth; rfl)]
   exact speed_nonneg cfg clock hm _ hnn
 
-/-- The defect (F21), on the code as it stands: two threads advance one started task by 1 each;
+/-- The defect (F21), on rich 9.10.0 as found (before fix b790bf0, `clockOutside = true`): two threads advance one started task by 1 each;
 thread 0 reads the clock (2), thread 1 reads the clock (3), thread 1 commits, thread 0 commits.
 The deque is `[(3,1),(2,1)]` and the speed is `1 / (2 - 3) = -1`; the remaining time is `-98` s. -/
 def wClock : Clock := fun k => (k : Int) + 1
